@@ -336,6 +336,9 @@ func valJd(v *val.Val, depth int) J {
 		if t.Nanosecond() == 0 && t.Location() == time.Local {
 			return J{"k": "time", "v": int(t.Unix())}
 		}
+		if t.Location() == time.Local {
+			return J{"k": "time", "v": int(t.Unix()), "ns": t.Nanosecond()} // sub-second instants (quarters of a second are in the domain)
+		}
 		return J{"k": "time", "v": int(t.Unix()), "ns": t.Nanosecond(), "zone": cps(t.Location().String())}
 	case types.KList:
 		els := A{}
@@ -396,6 +399,9 @@ func valFromJ(j J) *val.Val {
 	case "bool":
 		return val.Bool(boolv(j["v"]))
 	case "time":
+		if ns, ok := j["ns"]; ok {
+			return val.Time(time.Unix(int64(toInt(j["v"])), int64(toInt(ns))))
+		}
 		return val.Time(time.Unix(int64(toInt(j["v"])), 0))
 	case "list":
 		ty := typeFromJ(obj(j["ty"]))
